@@ -432,6 +432,7 @@ func cmdCheck(args []string) int {
 	sort.Strings(keys)
 	o := opts{tier: *tier, race: false, known: kf}
 	nviol := 0
+	replayTrouble := false
 	var reports []map[string]any
 	for _, k := range keys {
 		f := byKey[k]
@@ -461,8 +462,11 @@ func cmdCheck(args []string) int {
 			return r, false
 		}
 		if _, ok := pred(f.Choices); !ok {
+			// never reported as a VIOLATION; it does not mask the confirmed
+			// violations of the same batch either (exit 2 only if there is none)
 			fmt.Fprintf(os.Stderr, "harness trouble: failure %s of run %d does not reproduce in-process from its own choice list\n", k, f.Idx)
-			return 2
+			replayTrouble = true
+			continue
 		}
 		min := shrink(f.Choices, pred, 4000)
 		c := simrt.NewReplayChooser(min)
@@ -663,7 +667,7 @@ func cmdCheck(args []string) int {
 	if nviol > 0 {
 		return 1
 	}
-	if raceTrouble {
+	if raceTrouble || replayTrouble {
 		// a race report that cannot be replayed and no confirmed violation at all:
 		// the machinery could not do its job (never a pass, never a VIOLATION)
 		return 2
